@@ -161,12 +161,12 @@ def run(ctx, model_ok):
     bases += [("interp", s) for s in (
         'g := "héllo"\nn := "wörld"\nprint($"${ $"${g}" }, ${ $"${n}" }!")\n',
         'fn tag(t) {\n    return "<" + t + ">"\n}\nx := "x"\ny := "y"\nprint($"1: ${ tag($"${x}") }")\nprint($"2: ${ tag($"${y}") }")\nprint($"3: ${ tag($"${x}") } ${ tag($"${y}") }")\n',
-        'name := "world"\nprint($"A: hello ${name}")\nprint($"\\x41: hello ${name}")\nprint($"\\x41\\x42 ${name} \\x43 ${name}")\n',
+        'name := "world"\nprint($"A: hello ${name}")\nprint($"\\x41: hello ${name}")\nprint($"\\x41\\x42 ${name} \\x43 ${name}")\nprint("c1\\x09c2|" == "c1\tc2|")\nprint("one\\x0atwo"->len())\n',
         'xs := ["a", "b"]\nfor [i, v] in xs {\n    print($"${v}${ $"${v}" }")\n}\n',
         'a := "1"\nb := "2"\nfn f(p) {\n    return $"[${p}]"\n}\nprint(f(a) + f(b) + $"${f($"${a}")}${f($"${b}")}")\n',
     )]
     # what those five programs print (escapes are spellings, slots are program text)
-    interp_expected = ["héllo, wörld!\n", "1: <x>\n2: <y>\n3: <x> <y>\n", "A: hello world\nA: hello world\nAB world C world\n",
+    interp_expected = ["héllo, wörld!\n", "1: <x>\n2: <y>\n3: <x> <y>\n", "A: hello world\nA: hello world\nAB world C world\ntrue\n7\n",
                        "aa\nbb\n", "[1][2][1][2]\n"]
     ib = [s for l, s in bases if l == "interp"]
     for src, want, r in zip(ib, interp_expected, core.cli_batch(ib)):
